@@ -60,6 +60,22 @@ CLAIMS = {
         ),
         note=NOTE_COMMON,
     ),
+    "C08": dict(
+        technique="degree/parity abstract domain + symmetric-pair idiom + polynomial normal forms of the hashed value under gauge transformations (static analysis, ast)",
+        ref="DESIGN.md 3 (C08)",
+        text=(
+            "Decides the structural clauses of C08 for all objects: every class with __eq__ has __hash__; __eq__ of Point, "
+            "Line, Plane, ConvexPolygon, ConvexPolyhedron returns False on foreign types; polygon/polyhedron equality is "
+            "hash equality (so a == b implies equal hashes by construction); every __hash__ is invariant under the "
+            "representation freedoms its __eq__ ignores -- length and sign of a Line's direction, sign of a Plane's normal, "
+            "positive scale of a HalfLine's vector, exchange of a Segment's end points, plane orientation and vertex/face "
+            "order of polygons/polyhedra, and the choice of the stored support point of a Line / Plane -- decided in a "
+            "degree/parity domain and by polynomial normal forms of the hashed value; Segment.__eq__ accepts both "
+            "pairings; __eq__ uses direction fields only under parallel()/normalized(). NOT decided: that different sets "
+            "compare unequal, rounding-boundary effects, int/Fraction mixing."
+        ),
+        note=NOTE_COMMON + "hash(), round() and normalized() are modelled as functional opaque atoms of their canonical arguments.",
+    ),
     "C10": dict(
         technique="type-set dispatch evaluation + sign domain + R-CROSS guard dominance on the CFG (static analysis, ast)",
         ref="DESIGN.md 3 (C10)",
@@ -115,6 +131,21 @@ CLAIMS = {
             "(zero normal, collinear plane points, <3 distinct vertices) and whether the guards are sufficient."
         ),
         note=NOTE_COMMON + "Guards are recognised by CFG shape and data dependence, never by text.",
+    ),
+    "C18": dict(
+        technique="symbolic interpretation of the vector/point code over polynomial-ring indeterminates, comparison of normal forms (static analysis, ast; no execution)",
+        ref="DESIGN.md 3 (C18)",
+        text=(
+            "Decides the exact-algebra clauses of C18 for all inputs of any ring type: the real code of +, -, dot, scalar "
+            "multiplication from both sides, negation, cross, the three Vector constructor forms, Point.pv, Point(Vector), "
+            "Point.move and the constant vectors is interpreted over symbolic coordinates and its polynomial normal forms "
+            "equal the textbook component formulas (any algebraically equal rewrite is accepted; the identities "
+            "a.(a x b)=0, a x b=-(b x a), Lagrange are re-derived); these operations contain no coercion, division or "
+            "float literal; the promotion ranks are user < Fraction < Decimal < float < int with the minimum selected and "
+            "applied to every item; both constructors store promoted coordinates on every path; acos is clamped. NOT "
+            "decided: |normalized(v)| = 1 and direction preservation over magnitudes, Decimal behaviour (numeric)."
+        ),
+        note=NOTE_COMMON + "A rewrite outside the handled fragment (numpy, explicit loops) fails closed with exit 2.",
     ),
     "C19": dict(
         technique="name-resolution / scoping dataflow over imports + constant folding of the setters (static analysis, ast)",
